@@ -396,8 +396,14 @@ scpi_result_t h_torture(World &w, const InstrOpts &o) {
     if (query) {
         static const int8_t i8[] = {-128, 0, 127};
         static const uint16_t u16[] = {0, 0xFFFF, 0x1234};
+        static const uint8_t u8[] = {0, 255, 7};
+        static const int16_t i16[] = {-32768, 0, 32767};
         SCPI_ResultArrayInt8(c, i8, 3, (scpi_array_format_t) (o.variant % 3));
         SCPI_ResultArrayUInt16(c, u16, 3, (scpi_array_format_t) ((o.variant + 1) % 3));
+        SCPI_ResultArrayUInt8(c, u8, (size_t) (o.variant % 4), (scpi_array_format_t) ((o.variant + 2) % 3));
+        SCPI_ResultArrayInt16(c, i16, (size_t) (o.tb % 4), (scpi_array_format_t) (o.tb % 3));
+        (void) SCPI_ParamErrorOccurred(c);
+        if (u) (void) SCPI_Match("TORTure[:SUB#]?", u->cmd_raw.c_str(), u->cmd_raw.size());
         if (o.variant % 4 == 0) {
             // streamed block, then over-length data (must be refused)
             SCPI_ResultArbitraryBlockHeader(c, 4);
